@@ -439,7 +439,7 @@ class ExcelInPython:
         
     def _left(self, text, num_chars):
         if num_chars is None:
-            return text[0]
+            num_chars = 1
         if num_chars < 0:
             return '#ERROR!'
         if not text:
@@ -504,7 +504,7 @@ class ExcelInPython:
     
     def _right(self, text, num_chars):
         if num_chars is None:
-            return text[len(text) - 1]
+            num_chars = 1
         if num_chars < 0:
             return '#ERROR!'
         if not text:
